@@ -18,6 +18,8 @@ Fault kinds
   write_fail  write  OSError(ENOSPC|EIO), nothing of this call persisted
   short       write  half the bytes persisted, count returned (legal)
   close_fail  close  handle released, then OSError(EIO)
+  rename_fail / remove_fail / fsync_fail   (only reached if the code under
+              test uses os.rename/replace/remove/unlink/fsync on sim paths)
   crash       any    power loss: half of the current write persisted, every
                      open handle fenced (later writes from the dying run
                      vanish), SimCrash raised into the caller
@@ -57,6 +59,10 @@ class SimRaw(io.RawIOBase):
     def writable(self):
         return True
 
+    def fileno(self):
+        # a fake descriptor, only meaningful to the patched os.fsync
+        return self.fs.fake_fd(self)
+
     def readable(self):
         return False
 
@@ -90,6 +96,7 @@ class SimFS:
         self.op_tag = None         # set by the driver: which op is running
         self.open_handles = []
         self.crashed = False
+        self._fds = {}
 
     # ---- fault machinery -------------------------------------------------
     def _enter(self, kind, path, nbytes=0):
@@ -104,6 +111,9 @@ class SimFS:
                 "open": ("open_fail", "crash"),
                 "write": ("write_fail", "short", "crash"),
                 "close": ("close_fail", "crash"),
+                "rename": ("rename_fail", "crash"),
+                "remove": ("remove_fail", "crash"),
+                "fsync": ("fsync_fail", "crash"),
             }[kind]
             if f["kind"] in applicable:
                 self.fired = (idx, f["kind"], kind, path, self.op_tag)
@@ -120,7 +130,47 @@ class SimFS:
         code = (self.fault or {}).get("errno") or default
         return OSError(code, os.strerror(code))
 
+    def fake_fd(self, raw):
+        for fd, r in self._fds.items():
+            if r is raw:
+                return fd
+        fd = 1_000_000 + len(self._fds)
+        self._fds[fd] = raw
+        return fd
+
     # ---- raw operations --------------------------------------------------
+    def rename(self, src, dst, replace=False):
+        src, dst = os.fspath(src), os.fspath(dst)
+        fk = self._enter("rename", dst)
+        if fk == "rename_fail":
+            raise self._oserror(errno.EIO)
+        if fk == "crash":
+            self._crash()
+        if src not in self.files:
+            raise FileNotFoundError(errno.ENOENT, os.strerror(errno.ENOENT), src)
+        self.files[dst] = self.files.pop(src)
+
+    def remove(self, path):
+        path = os.fspath(path)
+        fk = self._enter("remove", path)
+        if fk == "remove_fail":
+            raise self._oserror(errno.EIO)
+        if fk == "crash":
+            self._crash()
+        if path not in self.files:
+            raise FileNotFoundError(errno.ENOENT, os.strerror(errno.ENOENT), path)
+        del self.files[path]
+
+    def fsync(self, fd):
+        raw = self._fds.get(fd)
+        if raw is None or raw.gen != self.gen:
+            return
+        fk = self._enter("fsync", raw.path)
+        if fk == "fsync_fail":
+            raise self._oserror(errno.EIO)
+        if fk == "crash":
+            self._crash()
+
     def stat(self, path):
         path = os.fspath(path)
         fk = self._enter("stat", path)
@@ -213,7 +263,29 @@ class SimFS:
     @contextlib.contextmanager
     def installed(self):
         real_open, real_io_open, real_stat = builtins.open, io.open, os.stat
+        real = {n: getattr(os, n) for n in
+                ("rename", "replace", "remove", "unlink", "fsync")}
         fs = self
+
+        def sim_rename(src, dst, *a, **kw):
+            if _is_sim(src) or _is_sim(dst):
+                return fs.rename(src, dst)
+            return real["rename"](src, dst, *a, **kw)
+
+        def sim_replace(src, dst, *a, **kw):
+            if _is_sim(src) or _is_sim(dst):
+                return fs.rename(src, dst, replace=True)
+            return real["replace"](src, dst, *a, **kw)
+
+        def sim_remove(path, *a, **kw):
+            if _is_sim(path):
+                return fs.remove(path)
+            return real["remove"](path, *a, **kw)
+
+        def sim_fsync(fd):
+            if isinstance(fd, int) and fd >= 1_000_000:
+                return fs.fsync(fd)
+            return real["fsync"](fd)
 
         def sim_open(file, *a, **kw):
             if _is_sim(file):
@@ -228,10 +300,15 @@ class SimFS:
         builtins.open = sim_open
         io.open = sim_open
         os.stat = sim_stat
+        os.rename, os.replace = sim_rename, sim_replace
+        os.remove = os.unlink = sim_remove
+        os.fsync = sim_fsync
         try:
             yield self
         finally:
             builtins.open, io.open, os.stat = real_open, real_io_open, real_stat
+            for n, f in real.items():
+                setattr(os, n, f)
 
     # ---- operator repair after a crash / failed write --------------------
     def repair(self, path):
